@@ -40,7 +40,7 @@ def generate(prop, seed, tier):
     g = Stream(seed, 'gen')
     sem = g.choice(['real', 'real', 'log', 'viterbi', 'bool'])
     rec = g.choice(['linear', 'linear-mutual', 'any', 'any'])
-    menu = g.choice(['unit', 'unit', 'zeros', 'small']) if sem in ('viterbi', 'bool') else g.choice(['small', 'small', 'pos', 'zeros'])
+    menu = g.choice(['unit', 'unit', 'zeros', 'small']) if sem in ('viterbi', 'bool') else g.choice(['small', 'small', 'pos', 'zeros', 'small', 'grid'])
     spec = G.gen_spec(g, recursion=rec, weights=menu, max_nodes=3, max_edges=3, max_dom=2 if rec == 'any' else 3,
                       explicit_ids=g.choice(['mixed', 'none']), shapes=g.random() < 0.5)
     if not G.is_recursive(spec) or g.random() < 0.3:
@@ -60,6 +60,10 @@ def generate(prop, seed, tier):
         # several independent recursive components, each solved by its own run of the iterative method
         spec = G.multi_scc_spec(g)
         method = g.choice(['fixed-point', 'fixed-point', 'newton'])
+    if g.random() < 0.06:
+        # unit rules that permute or repeat the externals inside a linear SCC
+        spec = G.perm_unit_spec(g, 'unit' if menu == 'unit' else 'small')
+        method = g.choice(['linear', 'newton', 'newton', 'fixed-point'])
     if g.random() < 0.12:
         # one linear SCC of 3-5 mutually recursive nonterminals (ring + chords): block elimination with fill-in
         spec = G.ring_chord_spec(g, 'unit' if menu == 'unit' else 'small')
@@ -75,12 +79,14 @@ def generate(prop, seed, tier):
             # history on the same FGG object: an earlier query under doubled weights (then halved in place), and/or the same
             # query repeated -- the answer and the warning must not depend on what the object was asked before
             'hist': {'prequery': g.choice([None, None, None, 'fixed-point', 'fixed-point', 'newton']),
-                     'repeat': g.random() < 0.5}}
+                     'repeat': g.random() < 0.5,
+                     # the grammar object is first queried without one of its (recursive) rules, which is added afterwards
+                     'late_rule': g.randrange(1, 1 << 16) if g.random() < 0.2 else None}}
 
 
 def reducers(case):
     h = case.get('hist') or {}
-    for k, v in (('prequery', None), ('repeat', False)):
+    for k, v in (('prequery', None), ('repeat', False), ('late_rule', None)):
         if h.get(k):
             c = copy.deepcopy(case)
             c['hist'][k] = v
@@ -203,9 +209,36 @@ def execute(case):
             dtype = torch.float64
             S = semiring_obj(sem, dtype)
             pres = build.random_presentation(spec, Stream(case['pres_seed'], 'pres'), allow_rename=False, allow_domperm=False, via=('api',))
-            B = build.build(spec, pres, interp=True, weights_transform=lift(sem), dtype=dtype)
-            name_of = {B.labels[n]: n for n in spec['nts']}
             hist = case.get('hist') or {}
+            late = None
+            if hist.get('late_rule'):
+                # candidates: a rule that carries a nonterminal edge, whose left-hand side keeps at least one other rule
+                cands = [ri for ri, r in enumerate(spec['rules']) if any(e['label'] in spec['nts'] for e in r['edges'])
+                         and sum(1 for r2 in spec['rules'] if r2['lhs'] == r['lhs']) >= 2]
+                if cands:
+                    late = cands[hist['late_rule'] % len(cands)]
+            if late is None:
+                B = build.build(spec, pres, interp=True, weights_transform=lift(sem), dtype=dtype)
+            else:
+                sub = copy.deepcopy(spec)
+                del sub['rules'][late]
+                B = build.build(sub, build.identity_presentation(sub), interp=True, weights_transform=lift(sem), dtype=dtype)
+                try:
+                    with recorded_warnings():
+                        F.sum_products(B.fgg, semiring=S, method=method if method != 'linear' else 'fixed-point', tol=1e-3, kmax=25)
+                except Exception:
+                    pass
+                r_ = spec['rules'][late]
+                rhs = F.Graph()
+                nodes_ = [F.Node(B.nls[v['label']], id=v.get('id')) for v in r_['nodes']]
+                for v in nodes_:
+                    rhs.add_node(v)
+                for e in r_['edges']:
+                    rhs.add_edge(F.Edge(B.labels[e['label']], [nodes_[i] for i in e['att']], id=e.get('id')))
+                rhs.ext = [nodes_[i] for i in r_['ext']]
+                B.fgg.add_rule(F.HRGRule(B.labels[r_['lhs']], rhs))
+                c.inc('hist.rule-added-after-first-query')
+            name_of = {B.labels[n]: n for n in spec['nts']}
             plain_weights = not any(t.get('pattern') is not None for t in spec['terms'].values())
 
             def scale_weights(up):
